@@ -1,10 +1,13 @@
 """C20 - the server loads configurations only from its root; threads keep the exact history.
 
 Domain : the real FastAPI app `nemoguardrails.server.api.app` driven through `TestClient`, configured with a temp
-         tree  BASE/root/{cfgA,cfgB}  (+ sibling BASE/root-evil and BASE/outside/secret, all valid configs);
+         tree  BASE/root/{cfgA,cfgB}  (+ sibling BASE/root-evil and BASE/outside/secret, all valid configs) and a
+         second tree  BASE/solo/cfgA  (a root that IS a configuration: single-config mode) with the valid configs
+         BASE/solo/{cfgB,root-evil,cfgA-evil,outside/secret} next to it; every case starts the server on one of the
+         two roots (module defaults + the app's own startup handlers, which pick the mode);
          `api.LLMRails` is a stub that records the messages it is asked to continue and answers with a digest of
          them; `RailsConfig.from_path` is wrapped (call-through) to record every path, and an audit hook records
-         every open/listdir/scandir below BASE that is not below BASE/root.
+         every open/listdir/scandir below BASE that is not below the root of the case.
          part "ids"     : 1-4 requests whose config_id / config_ids come from a grammar over dot sequences,
                           separators, percent-encodings, unicode look-alikes, absolute paths, valid names;
          part "threads" : 3-24 requests over 3 thread ids (prefixes of each other, case variants, 255 chars) with
@@ -12,7 +15,8 @@ Domain : the real FastAPI app `nemoguardrails.server.api.app` driven through `Te
                           request per thread.
 Oracle : ids - every path handed to from_path resolves (realpath) to the root or below it and nothing outside is
          touched; a request whose ids are all names of configuration directories of the root loads exactly
-         root/<id> (or nothing if that list is already cached) and is answered by the rails; every other
+         root/<id> (or nothing if that list is already cached) and is answered by the rails; on a single-config
+         root only the root's folder name is such an id and it loads the root itself; every other
          request gets the fixed "Could not load the [...] guardrails configuration. An internal error has
          occurred." reply and no rails run.  threads - reference model dict[thread_id] -> list: the stub must
          receive model[tid] + new messages, the reply is stored behind them, the set of stored threads equals the
@@ -35,22 +39,33 @@ LEVEL = "exploration"
 CASE_TIMEOUT = 30
 HANG_IS_VIOLATION = False
 RULE = (
-    "part ids (10 of 11 cases): 1-4 requests, each with config_id or config_ids (1-3 ids); an id is a curated escape attempt "
+    "part ids (10 of 11 cases): server mode drawn per case - 2/3 multi-config root (BASE/root holding cfgA, cfgB; siblings root-evil, "
+    "outside/secret) and 1/3 single-config root (BASE/solo/cfgA holds a config.yml itself, valid configurations cfgB, root-evil, "
+    "cfgA-evil, outside/secret lie next to it; the server is started on it through its own startup handlers, so only the id 'cfgA' "
+    "= the root's folder name is served); then 1-4 requests, each with config_id or config_ids (1-3 ids); on a single-config root "
+    "15% of the ids are the plain name of a folder next to the root or the root's own name; otherwise an id is a curated escape attempt "
     "(../root-evil, ../outside/secret, absolute paths of the sibling/outside/inside configs, cfgA/../cfgB, backslash and "
     "percent-encoded and unicode look-alike variants, ...), a concatenation of 1-6 tokens from {.., ., ..., /, \\, //, %2e, %2f, "
-    "%5c, fullwidth/one-dot-leader/division-slash look-alikes, cfgA, cfgB, root-evil, outside, secret, {BASE}, {ROOT}, -, "
+    "%5c, fullwidth/one-dot-leader/division-slash look-alikes, cfgA, cfgB, root-evil, outside, secret, {BASE}, {ROOT}, {PARENT} = parent of the root, -, "
     "space, ~, '' ...} or a valid name; part threads (1 of 11): 3-24 operations over 3 thread ids drawn from a pool with shared "
     "16-character prefixes/case variants/255 characters, each with 1-3 messages (roles, small content alphabet so different "
     "threads hold equal messages, optional extra keys), ~10% without thread id, a quarter of the plain thread turns overlap with a complete turn on another thread id (served as its own task while the first is being generated), ~8% with context, configs cfgA/cfgB/[cfgA,cfgB], "
-    "followed by a probe request per thread. Non-trivial: ids case = some id contains a separator, a dot sequence, a "
-    "percent-encoding or a look-alike; threads case = at least 3 thread requests and at least 2 thread ids interleaved "
+    "followed by a probe request per thread. Enumerated: every curated id alone / after a valid load / inside lists on the "
+    "multi-config root, and every curated id, sibling folder name, '' and '.' alone (config_id and one-element list) and around loads "
+    "of the root's own id on the single-config root. Non-trivial: ids case = some id contains a separator, a dot sequence, a "
+    "percent-encoding or a look-alike, or (single-config root) is the name of a folder next to the root; threads case = at least 3 thread requests and at least 2 thread ids interleaved "
     "(a thread is used again after another one was used); distinct by case hash."
 )
 ASSUMPTIONS = [
-    "the root contains exactly the configuration directories cfgA and cfgB (no symlinks, no files, no nested configs)",
+    "the multi-config root contains exactly the configuration directories cfgA and cfgB (no symlinks, no files, no nested configs); "
+    "the single-config root contains only its config.yml (no sub-folders); roots are given without trailing separator (as the CLI does)",
+    "single-config root: the id that is served is the folder name of the root (what GET /v1/rails/configs lists; docs: 'only that "
+    "configuration will be available'); a list repeating that id (['cfgA','cfgA']) is not specified: only confinement is asserted",
+    "the server mode is established by running the app's registered startup handlers on attributes reset to the module defaults "
+    "(the copies of the '/' route they register are dropped again); the threads part always runs on the multi-config root",
     "ids are NUL-free strings; requests never set config_id and config_ids together (HTTP 422 by schema)",
     "no id / empty id / [] (server answers HTTP 500 without default config) and lists containing '' or '.' (resolve to the root "
-    "itself, which single-config mode loads on purpose): only confinement is asserted (DESIGN 4/C20 S)",
+    "itself, which single-config mode loads on purpose): only confinement is asserted, in both server modes (DESIGN 4/C20 S)",
     "requests with `context` on a thread: only 'stored = received + reply' is asserted (DESIGN 4/C20 S)",
     "excluded unless case.strict: (a) an id equal to the '-'-join of a list served earlier (cache key collision), "
     "(b) ids ending in .yml/.yaml (from_path opens them as files; a missing file surfaces as HTTP 500); confinement is still asserted",
@@ -58,6 +73,8 @@ ASSUMPTIONS = [
 ]
 WALL = {"quick": 150, "thorough": 1500}
 VALID = ("cfgA", "cfgB")
+SOLO_ID = "cfgA"  # folder name of the single-config root = the only id that server serves
+SOLO_SIBLINGS = ("cfgB", "root-evil", "cfgA-evil", "outside")  # folders next to the single-config root ("outside" holds outside/secret)
 FIXED_HEAD = "Could not load the "
 FIXED_TAIL = " guardrails configuration. An internal error has occurred."
 HI = [{"role": "user", "content": "hi"}]
@@ -116,6 +133,13 @@ def _env():
         _mk_config(os.path.join(e.root, name), name)
     _mk_config(os.path.join(e.base, "root-evil"), "EVIL")
     _mk_config(os.path.join(e.base, "outside", "secret"), "SECRET")
+    # second tree for the single-config server mode: the root BASE/solo/cfgA is itself a configuration (it holds a
+    # config.yml) and every other folder of BASE/solo is a valid configuration NEXT TO the root
+    e.solo = os.path.join(e.base, "solo")
+    _mk_config(os.path.join(e.solo, SOLO_ID), "SOLO")
+    for name in SOLO_SIBLINGS:
+        _mk_config(os.path.join(e.solo, name, "secret") if name == "outside" else os.path.join(e.solo, name), "SOLO-" + name)
+    e.roots = {"multi": e.root, "single": os.path.join(e.solo, SOLO_ID)}
     e.paths, e.calls, e.touched = [], [], []
     e.watch = False
     e.nested, e.nested_result = None, None
@@ -159,8 +183,6 @@ def _env():
         return orig(config_path, *a, **kw)
 
     api.RailsConfig.from_path = staticmethod(from_path)
-    outside_prefixes = (os.path.join(e.base, "root-evil"), os.path.join(e.base, "outside"))
-
     def audit(event, args):
         if not e.watch or event not in ("open", "os.listdir", "os.scandir"):
             return
@@ -169,7 +191,8 @@ def _env():
             p = os.fsdecode(p)
         if isinstance(p, str) and e.base in p:
             rp = os.path.realpath(p)
-            if rp.startswith(outside_prefixes):
+            # below BASE, not the root / below the root, and not one of the root's own ancestors
+            if rp.startswith(e.base + os.sep) and not (rp == e.root or rp.startswith(e.root + os.sep)) and not e.root.startswith(rp + os.sep):
                 e.touched.append(f"{event}:{p}")
 
     sys.addaudithook(audit)
@@ -177,10 +200,11 @@ def _env():
     api.app.rails_config_path = e.root
     api.app.auto_reload = False
     e.client = TestClient(api.app, raise_server_exceptions=False)
-    # one portal (server event loop) for the life of the process: runs the app's startup handler once (multi-config
-    # mode: the root has no config.yml) and makes a request ~3x cheaper than a portal per request
+    # one portal (server event loop) for the life of the process: makes a request ~3x cheaper than a portal per request;
+    # entering it runs the app's startup handlers once, _reset runs them again for the root of every case
     e.client.__enter__()
     atexit.register(_close_client, e.client)
+    e.n_routes = len(api.app.router.routes)
     _E = e
     return e
 
@@ -201,18 +225,31 @@ def _imports():
 _imports()
 
 
-def _reset(e):
+def _reset(e, mode="multi"):
+    """A freshly started server on the root of `mode`: module-level defaults, then the app's own startup handlers (they
+    decide between multi-config and single-config mode by looking at the root), on the server's event loop."""
+    import inspect
+
     from nemoguardrails.server.datastore.memory_store import MemoryStore
 
     api = e.api
     api.llm_rails_instances.clear()
     api.llm_rails_events_history_cache.clear()
     api.registered_loggers.clear()
+    e.root = e.roots[mode]
     api.app.rails_config_path = e.root
     api.app.default_config_id = None
     api.app.single_config_mode = False
     api.app.single_config_id = None
     api.app.auto_reload = False
+    api.app.disable_chat_ui = True
+    for handler in list(api.app.router.on_startup):
+        if inspect.iscoroutinefunction(handler):
+            e.client.portal.call(handler)
+        else:
+            handler()
+    # the startup handler registers its "/" route again on every run: drop the copies (harness hygiene only)
+    del api.app.router.routes[e.n_routes:]
     e.store = MemoryStore()
     api.register_datastore(e.store)
 
@@ -300,21 +337,41 @@ CURATED = [
     "*",
     "cfg?",
     "cfgA/config.yml",
+    # names and paths that matter when the root itself is the configuration (siblings of the root, the root, its parent)
+    "cfgA-evil",
+    "outside",
+    "secret",
+    "../cfgB",
+    "../cfgA",
+    "../cfgA-evil",
+    "../cfgA/",
+    "{PARENT}",
+    "{PARENT}/",
+    "{PARENT}/cfgB",
+    "{PARENT}/root-evil",
+    "{PARENT}/cfgA-evil",
+    "{ROOT}",
+    "{ROOT}/",
+    "{ROOT}/.",
+    "{ROOT}/../cfgB",
 ]
 TOKENS = (
     ["..", "..", "..", ".", "...", "/", "/", "/", "\\", "\\", "//", "%2e", "%2e%2e", "%2E", "%2f", "%2F", "%5c", "%252e", "%252f"]
     + ["․", "．", "／", "∕", "⁄", "⧸", "。"]
     + ["cfgA", "cfgA", "cfgB", "cfgC", "root", "root-evil", "outside", "secret", "config", "-evil"]
-    + ["{BASE}", "{ROOT}", "-", " ", "~", "", "x", "é"]
+    + ["{BASE}", "{ROOT}", "{PARENT}", "-", " ", "~", "", "x", "é"]
 )
 YAML_TOKENS = [".yml", ".yaml", "config.yml"]
 
 
 @st.composite
-def _id(draw):
+def _id(draw, mode="multi"):
     k = draw(st.integers(0, 19))
     if k < 2:
         return draw(st.sampled_from(VALID))
+    if mode == "single" and k < 5:
+        # the plain name of a folder next to the root (or the root's own name)
+        return draw(st.sampled_from(SOLO_SIBLINGS + (SOLO_ID,)))
     if k < 8:
         return draw(st.sampled_from(CURATED))
     toks = draw(st.lists(st.sampled_from(TOKENS), min_size=1, max_size=6))
@@ -324,16 +381,16 @@ def _id(draw):
 
 
 @st.composite
-def _id_request(draw):
+def _id_request(draw, mode="multi"):
     k = draw(st.integers(0, 19))
     if k == 0:
         return draw(st.sampled_from([{}, {"config_id": None}, {"config_id": ""}, {"config_ids": []}, {"config_ids": [""]}, {"config_id": "."}]))
     if k < 12:
-        return {"config_id": draw(_id())}
+        return {"config_id": draw(_id(mode))}
     n = draw(st.sampled_from([1, 2, 2, 3]))
     ids = []
     for _ in range(n):
-        ids.append(draw(st.sampled_from(VALID)) if draw(st.booleans()) else draw(_id()))
+        ids.append(draw(st.sampled_from(VALID)) if draw(st.booleans()) else draw(_id(mode)))
     return {"config_ids": ids}
 
 
@@ -364,6 +421,10 @@ BOOM = "@@BOOM@@"  # a turn whose last new message has this content makes the (s
 @st.composite
 def _message(draw):
     m = {"role": draw(st.sampled_from(ROLES)), "content": draw(st.one_of(st.sampled_from(CONTENT), st.sampled_from(CONTENT), st.text(max_size=8)))}
+    if m["content"] == BOOM:
+        # Hypothesis harvests string constants of this module for st.text(): the failure marker is reserved for turns
+        # that are scripted (and modelled) as failing
+        m["content"] = "boom"
     if draw(st.integers(0, 7)) == 0:
         m[draw(st.sampled_from(["name", "n", "meta"]))] = draw(st.one_of(st.integers(-5, 5), st.sampled_from(["x", None, True]), st.just({"k": [1, "v"]})))
     return m
@@ -395,8 +456,10 @@ def _threads_case(draw):
 def _case(draw):
     if draw(st.integers(0, 10)) == 0:
         return draw(_threads_case())
-    reqs = draw(st.lists(_id_request(), min_size=1, max_size=4))
-    return {"part": "ids", "requests": reqs, "strict": True}
+    # server mode: the root holds configuration folders (multi) or the root itself is the configuration (single)
+    mode = "single" if draw(st.integers(0, 2)) == 0 else "multi"
+    reqs = draw(st.lists(_id_request(mode), min_size=1, max_size=4))
+    return {"part": "ids", "mode": mode, "requests": reqs, "strict": True}
 
 
 def strategy(tier):
@@ -409,6 +472,11 @@ def enumerate_cases(tier):
         yield {"part": "ids", "requests": [{"config_id": cid}], "strict": True}
         yield {"part": "ids", "requests": [{"config_id": "cfgA"}, {"config_ids": ["cfgA", cid]}, {"config_ids": [cid, "cfgB"]}], "strict": True}
     yield {"part": "ids", "requests": [{"config_ids": ["cfgA", "cfgB"]}, {"config_ids": ["cfgB", "cfgA"]}, {"config_id": "cfgB"}, {"config_id": "cfgB"}], "strict": True}
+    # single-config root: every curated id and every sibling folder name alone (config_id and one-element list), and
+    # around loads of the root's own id
+    for cid in CURATED + list(SOLO_SIBLINGS) + ["", "."]:
+        yield {"part": "ids", "mode": "single", "requests": [{"config_id": cid}, {"config_ids": [cid]}], "strict": True}
+        yield {"part": "ids", "mode": "single", "requests": [{"config_id": SOLO_ID}, {"config_id": cid}, {"config_ids": [SOLO_ID, cid]}, {"config_ids": [cid, SOLO_ID]}, {"config_ids": [SOLO_ID]}], "strict": True}
     # a fixed interleaving on ids sharing their first 16 characters
     m = lambda s: [{"role": "user", "content": s}]  # noqa: E731
     for tids in (["t" * 16, "t" * 17, "T" * 16], ["x" * 255, "x" * 254, "thread-abcdefghij"]):
@@ -429,7 +497,7 @@ def enumerate_cases(tier):
 
 
 def _expand(e, s):
-    return s.replace("{BASE}", e.base).replace("{ROOT}", e.root)
+    return s.replace("{BASE}", e.base).replace("{ROOT}", e.root).replace("{PARENT}", os.path.dirname(e.root))
 
 
 LOOKALIKES = "․．／∕⁄⧸。Ａ"
@@ -447,7 +515,7 @@ def _features(raw):
         f.append("percent-encoding")
     if any(c in raw for c in LOOKALIKES):
         f.append("unicode-lookalike")
-    if raw.startswith(("/", "{BASE}", "{ROOT}")):
+    if raw.startswith(("/", "{BASE}", "{ROOT}", "{PARENT}")):
         f.append("absolute")
     return f
 
@@ -477,6 +545,8 @@ def _is_fixed_reply(status, js):
 
 def _ids_case(e, case):
     strict = bool(case.get("strict"))
+    single = case.get("mode", "multi") == "single"
+    own = os.path.basename(e.root)  # single-config mode: the name of the root folder is the one id that is served
     served = {}  # cache key -> id list, for every request that was answered by rails in this case
     labels, skips = [], []
     nt = False
@@ -492,9 +562,12 @@ def _ids_case(e, case):
             raw_ids = list(req["config_ids"]) or None
         ids = None if raw_ids is None else [_expand(e, i) for i in raw_ids]
         status, js, paths, calls, touched = _post(e, body)
-        what = f"request #{n} {json.dumps(req, ensure_ascii=True)}"
+        what = f"request #{n} {json.dumps(req, ensure_ascii=True)}" + (f" [single-config root {e.root!r}]" if single else "")
         _check_confinement(e, what, paths, touched)
-        feats = sorted({f for i in (raw_ids or []) for f in _features(i)})
+        feats = {f for i in (raw_ids or []) for f in _features(i)}
+        if single and any(i in SOLO_SIBLINGS for i in (raw_ids or [])):
+            feats.add("name-of-folder-next-to-single-root")
+        feats = sorted(feats)
         if feats:
             nt = True
         labels += ["id:" + f for f in feats] or ["id:plain"]
@@ -506,9 +579,11 @@ def _ids_case(e, case):
             outcome = "no-id(confinement only)"
         elif any(i in ("", ".") for i in ids):
             outcome = "root-itself(confinement only)"
-        elif all(i in VALID for i in ids):
+        elif single and len(ids) > 1 and all(i == own for i in ids):
+            outcome = "single-id-repeated(confinement only)"  # combining the one configuration with itself: not specified
+        elif (ids == [own]) if single else all(i in VALID for i in ids):
             outcome = "accepted"
-            expected = [os.path.join(e.root, i) for i in ids]
+            expected = [e.root] if single else [os.path.join(e.root, i) for i in ids]
             got = [os.path.normpath(p) for p in paths]
             cached = served.get(key) == ids
             if not (got == expected or (cached and got == [])):
@@ -531,7 +606,7 @@ def _ids_case(e, case):
                 else:
                     raise Violation(
                         excluded or "not-rejected",
-                        f"{what}: ids {ids!r} do not name configuration directories of the root, expected the fixed "
+                        f"{what}: ids {ids!r} do not name " + (f"the single configuration {own!r} of the root" if single else "configuration directories of the root") + ", expected the fixed "
                         f"'Could not load ...' reply, got HTTP {status} {str(js)[:200]} (rails ran: {len(calls)}, loaded: {paths!r})",
                     )
             elif paths:
@@ -540,7 +615,8 @@ def _ids_case(e, case):
             served.setdefault(key, ids)
         labels.append("outcome:" + outcome)
         view.append({"request": req, "status": status, "reply": (js or {}).get("messages", js) if isinstance(js, dict) else js, "loaded": [p.replace(e.base, "{BASE}") for p in paths]})
-    res = ok(nt=nt, labels=sorted(set(labels)), view={"part": "ids", "steps": view[:4]}, counters={"id_requests": len(case["requests"])})
+    labels.append("mode:single-config-root" if single else "mode:multi-config-root")
+    res = ok(nt=nt, labels=sorted(set(labels)), view={"part": "ids", "mode": "single" if single else "multi", "steps": view[:4]}, counters={"id_requests": len(case["requests"])})
     if skips:
         res["skip"] = "excluded feature: " + skips[0]
     return res
@@ -671,9 +747,10 @@ def _threads_run(e, case):
 
 def prop(case):
     e = _env()
-    _reset(e)
     if case["part"] == "ids":
+        _reset(e, "single" if case.get("mode", "multi") == "single" else "multi")
         return _ids_case(e, case)
+    _reset(e)
     return _threads_run(e, case)
 
 
